@@ -38,7 +38,7 @@ def strategy(tier, sub=None):
 
 
 def budget(tier, sub=None):
-    return {"examples": 6400 if tier == "quick" else 80000, "shards": 16}
+    return {"examples": 16000 if tier == "quick" else 160000, "shards": 16}
 
 
 def run_case(spec, sub=None):
